@@ -50,6 +50,8 @@ def configs(tier):
                             add(**c)
         for st in ('interval', 'uniform', 'geometric', 'sequence'):
             add(d=2, q=1, m=1 if st == 'sequence' else 2, mode=mode, imputer='joint', storage=st)
+            for strat in ('joint', 'product'):
+                add(d=2, q=1, m=1 if st == 'sequence' else 2, mode=mode, imputer=strat, storage=st, calls=2, _cost=600)
         for nm in ('int', 'float', 'mixed'):
             add(d=3, q=1, m=2, mode=mode, imputer='joint', storage='batch', names=nm)
         add(d=2, q=2, m=2, mode=mode, imputer='joint', storage='batch', labels=2)
@@ -140,8 +142,25 @@ def _step(env, cfg):
                             eq(ex.seen_samples, pre['seen'] + 1)))
     f0 = names[0] if cfg.get('ignored') != 0 else names[-1]
     env.canary('sign_flipped', eq(got_imp[f0], ref_stat(b, pre['imp'][f0]['val'], N, -contrib[f0])))
+    env.claim('model_outputs_not_modified_by_the_library', b['model'].outputs_intact())
     if env.mode == 'sym' and env.stats.vacuity_witnesses < 2:
         env.witness()
+    if cfg.get('calls', 1) >= 2:
+        # a second explanation by the same objects: the storage (possibly at capacity) was updated by the first call
+        imp1 = {f: got_imp[f] for f in names}
+        var1 = {f: got_var[f] for f in names}
+        rows2 = list(b['storage'].get_data()[0])
+        x2, y2 = sym_row(env, names, 'x2'), env.real('y2')
+        n_i, n_m = len(b['imputer'].calls), len(b['model'].calls)
+        guarded(env, 'explain_one#2', ex.explain_one, x2, y2, **kw)
+        c2 = _contributions(env, b, x2, y2, q, b['imputer'].calls[n_i:], b['model'].calls[n_m:], rows2, tag='_second_call')
+        if c2 is None:
+            return
+        for f in names:
+            imp2 = ref_stat(b, imp1[f], N + 1, c2[f])
+            d2 = c2[f] - imp2
+            env.claim('importance_is_running_stat_second_call', eq(ex.importance_values[f], imp2))
+            env.claim('variance_is_running_stat_second_call', eq(ex.variances[f], ref_stat(b, var1[f], N + 1, d2 * d2)))
 
 
 def _explicit(env, cfg):
